@@ -402,7 +402,9 @@ func escText(s string) string {
 
 // (the shapes c18-prepass-in-string and c18-dedup-empty were repaired by /repo commit 0cf3884e:
 // they are generated as before and must round-trip now; a recurrence is a plain violation)
-var tagOrder = []string{"c18-long-precision", "c18-type-member", "c18-go-quote",
+// (c18-long-precision and the panics on `type` look-alikes were repaired by the UseNumber /
+// checked-assertions fix: Long values of any size must round-trip, and a panic is a plain violation)
+var tagOrder = []string{"c18-type-member", "c18-go-quote",
 	"c18-key-unescaped", "c18-double-nonfinite", "c18-date-range"}
 
 var rtagOrder = []string{"c18-rebuild-text-empty-node", "c18-rebuild-tree-root", "c18-rebuild-tree-empty-text",
@@ -466,12 +468,6 @@ func (c *classifier) tree(n yson.TreeNode) {
 	}
 }
 
-func (c *classifier) long(n int64) {
-	if int64(float64(n)) != n || float64(n) >= 9.223372036854775807e18 {
-		c.tags["c18-long-precision"] = true
-	}
-}
-
 func (c *classifier) value(v interface{}, root bool) {
 	switch y := v.(type) {
 	case float64:
@@ -480,15 +476,9 @@ func (c *classifier) value(v interface{}, root bool) {
 		}
 	case string:
 		c.qstr(y)
-	case int64:
-		c.long(y)
 	case gotime.Time:
 		if _, err := gotime.Parse(gotime.RFC3339Nano, y.Format(gotime.RFC3339Nano)); err != nil {
 			c.tags["c18-date-range"] = true
-		}
-	case yson.Counter:
-		if y.Type == crdt.LongCnt {
-			c.long(y.Value.(int64))
 		}
 	case yson.Text:
 		for _, n := range y.Nodes {
@@ -731,6 +721,7 @@ func checkValue(c *Ctx, v interface{}, fromDoc bool) ysonResult {
 	}
 	if strings.HasPrefix(outcome, "panic") {
 		c.Count("r1:panic")
+		c.Oracle("Unmarshal panicked on user data: %s -> %s", clip(escText(text), 300), outcome)
 	}
 
 	if res.isObj {
